@@ -27,12 +27,20 @@ extern uint32_t g_now;
 
 long w_btc_mtp_c(const uint32_t* ts, size_t n)
 __CPROVER_requires(__CPROVER_is_fresh(ts, NMAXB * sizeof(uint32_t)) && n >= 1 && n <= NMAXB)
+#ifdef CHAINLEN
+/* one query per concrete chain length (the BTC code sorts a pointer range whose start depends on the length) */
+__CPROVER_requires(n == CHAINLEN)
+#endif
 __CPROVER_assigns()
 __CPROVER_ensures(RET >= 0 && RET <= 0xffffffffL && IS_MED11(ts, n, (uint32_t)RET));
 
 /* accepted <=> median <= timestamp <= now + maxFuture (64-bit arithmetic, no wrap-around) */
 int w_btc_checkBlockTime_c(const uint32_t* ts, size_t n, uint32_t block_ts, uint32_t now, uint32_t maxFuture)
 __CPROVER_requires(__CPROVER_is_fresh(ts, NMAXB * sizeof(uint32_t)) && n >= 1 && n <= NMAXB)
+#ifdef CHAINLEN
+/* one query per concrete chain length (the BTC code sorts a pointer range whose start depends on the length) */
+__CPROVER_requires(n == CHAINLEN)
+#endif
 /* the library adds the 32-bit clock and the 32-bit window in 32 bits: stated assumption "now + maxFuture < 2^32" (wall clock before the year 2106) */
 __CPROVER_requires((uint64_t)now + (uint64_t)maxFuture <= 0xffffffffUL)
 __CPROVER_assigns(g_now)
